@@ -10,7 +10,7 @@ SRC=${UTAP_SRC:-/repo}
 VERIF=$(cd "$(dirname "$0")/.." && pwd)
 OUT=${UTAP_BUILD_ROOT:-$VERIF/.build}/$VARIANT
 CXX=clang++
-COMMON="-std=c++17 -fPIC -g -O1 -fno-omit-frame-pointer -DNDEBUG -DUTAP_VERIF -Wno-everything"
+COMMON="-std=c++17 -fPIC -g -O1 -fno-omit-frame-pointer -DNDEBUG -D_GLIBCXX_ASSERTIONS -DUTAP_VERIF -Wno-everything"
 case "$VARIANT" in
   asan) SAN="-fsanitize=address,undefined -fno-sanitize-recover=undefined" ;;
   fuzz) SAN="-fsanitize=address,undefined -fno-sanitize-recover=undefined -fsanitize=fuzzer-no-link" ;;
